@@ -48,6 +48,8 @@ type Contract struct {
 	Safety  bool
 	Frame   bool // frame on: syntactic frame check is an obligation
 	Also          map[string][]string // property id -> labels of this block's obligations that additionally belong to that property
+	AppendOldReads bool               // opt-in: append facts also link OLD(p) back to reads of the old backing array
+	ThoroughOnly  []string            // labels of obligations discharged only in the thorough tier (slow proofs); assumed in the quick tier and listed in the evidence
 	Resets        []string            // ghost set variables emptied at entry (ghost assignment: at body entry and at call sites before the precondition)
 	OnlyContracts []string // if set: only these callees' contracts are used, all others are treated as uncontracted
 	Opaque  bool
@@ -338,6 +340,10 @@ func applyClause(c *Contract, kw, label, text, file string, line int) error {
 		c.OnlyContracts = append(c.OnlyContracts, strings.Fields(strings.ReplaceAll(text, ",", " "))...)
 	case "frame":
 		c.Frame = strings.TrimSpace(text) != "off"
+	case "append-old-reads":
+		c.AppendOldReads = strings.TrimSpace(text) != "off"
+	case "thorough-only":
+		c.ThoroughOnly = append(c.ThoroughOnly, strings.Fields(strings.ReplaceAll(text, ",", " "))...)
 	case "resets":
 		for _, n := range strings.Fields(strings.ReplaceAll(text, ",", " ")) {
 			c.Resets = append(c.Resets, n)
